@@ -444,7 +444,7 @@ Section Top.
       /\ u_tasks (res_state r) = map task_entry (filter is_task ctrl).
   Proof.
     intros Hfuel. unfold upload_target, get_tag_list.
-    change (set_tasks [] (set_programs [] (set_udts [] (set_structs [] init_ustate)))) with init_ustate.
+    change (set_data_types [] (set_tasks [] (set_programs [] (set_udts [] (set_structs [] init_ustate))))) with init_ustate.
     destruct (scope_ok R_ctrl None ScCtrl fuel init_ustate eq_refl Hfuel (Inv_init R_ctrl)) as (u' & new & E & HF & Hi & Hk & Hp & Hb).
     { intros g Hg. exact (ctrl_scope g Hg). }
     { intros g tid Hg Hv Ht. exists g. auto. }
@@ -468,7 +468,7 @@ Section Top.
       /\ u_tasks (res_state r) = map task_entry (filter is_task ctrl).
   Proof.
     intros Hfuel. unfold upload_target, get_tag_list.
-    change (set_tasks [] (set_programs [] (set_udts [] (set_structs [] init_ustate)))) with init_ustate.
+    change (set_data_types [] (set_tasks [] (set_programs [] (set_udts [] (set_structs [] init_ustate))))) with init_ustate.
     destruct (scope_ok R_star None ScCtrl fuel init_ustate eq_refl Hfuel (Inv_init R_star)) as (u1 & new1 & E1 & HF1 & Hi1 & Hk1 & Hp1 & Hb1).
     { intros g Hg. exact (ctrl_scope g Hg). }
     { intros g tid Hg Hv Ht. exists g. split; [apply (ctrl_scope g Hg) | auto]. }
